@@ -385,12 +385,21 @@ def closeToReal (atol rtol : K) (z : Cx K) (w : K) : Bool :=
 def all3 (p : Fin 3 → Bool) : Bool := p 0 && p 1 && p 2
 def all6 (p : Fin 6 → Bool) : Bool := p 0 && p 1 && p 2 && p 3 && p 4 && p 5
 
+/-- a complex number times / over a real one (numpy: complex array `* Cmax`, `/ Cmax`). -/
+def Cx.rmul (r : K) (z : Cx K) : Cx K := ⟨z.re * r, z.im * r⟩
+def Cx.rdiv (z : Cx K) (r : K) : Cx K := ⟨z.re / r, z.im / r⟩
+
+/-- `Cmax = np.abs(Cijkl).max()` -/
+def maxAbsTen4 (C : Ten4 K) : K := listMax 0 ((ten4ToList C).map absF)
+
 /-- the four assertions of `Stroh.solve` (`np.allclose(..., atol=tol)`, default `rtol` a parameter);
-    `sk` is `k**.5` (a parameter with residual `sk² = k`). -/
-def strohChecksOk (tol rtol : K) (μ : Fin 6 → Mode (Cx K)) (k sk : Fin 6 → Cx K) : Bool :=
+    `sk` is `k**.5` (a parameter with residual `sk² = k`).  `Σ k A⊗A` carries the unit of `1/C` and `Σ k L⊗L` the
+    unit of `C`: the code multiplies resp. divides them by `cmax = np.abs(Cijkl).max()` before comparing with the
+    unitless `tol` (repo fix: before, stiffnesses above 3e7 or below 3e-8 — e.g. in Pa — were always refused). -/
+def strohChecksOk (tol rtol cmax : K) (μ : Fin 6 → Mode (Cx K)) (k sk : Fin 6 → Cx K) : Bool :=
   (all3 fun i => all3 fun j => closeToReal tol rtol (chkAL μ k i j) (kron i j))
-  && (all3 fun i => all3 fun j => closeToReal tol rtol (chkAA μ k i j) 0)
-  && (all3 fun i => all3 fun j => closeToReal tol rtol (chkLL μ k i j) 0)
+  && (all3 fun i => all3 fun j => closeToReal tol rtol (Cx.rmul cmax (chkAA μ k i j)) 0)
+  && (all3 fun i => all3 fun j => closeToReal tol rtol (Cx.rdiv (chkLL μ k i j) cmax) 0)
   && (all6 fun s => all6 fun t => closeToReal tol rtol (chkST μ sk s t) (kron6 s t))
 
 /-- `np.real_if_close(K, tol)` returns a real array iff every `|Im| < tol`. -/
@@ -398,8 +407,8 @@ def kIsReal (tol : K) (Kt : Mat (Cx K)) : Bool :=
   all3 fun i => all3 fun j => decide (-tol < (Kt i j).im) && decide ((Kt i j).im < tol)
 
 /-- `Stroh.solve` accepts the eigen-solver output (does not raise `ValueError`). -/
-def strohAccept (tol rtol : K) (μ : Fin 6 → Mode (Cx K)) (k sk : Fin 6 → Cx K) : Bool :=
-  strohChecksOk tol rtol μ k sk && kIsReal tol (kTensor Cx.I μ k)
+def strohAccept (tol rtol cmax : K) (μ : Fin 6 → Mode (Cx K)) (k sk : Fin 6 → Cx K) : Bool :=
+  strohChecksOk tol rtol cmax μ k sk && kIsReal tol (kTensor Cx.I μ k)
 
 /-- `K = real_if_close(K); K[isclose(K / K.max(), 0, atol=tol)] = 0` on the real parts. -/
 def kClean (tol : K) (Kt : Mat (Cx K)) : Mat K :=
